@@ -393,6 +393,49 @@ DocFrom(x, t) == LET b == NextBlock(x, t) IN IF b.none THEN <<>> ELSE ParseBlock
 \* every event the pull parser yields for the input, in order
 ParseDoc(inp, ext, osm, base) == DocFrom(Ctx(inp, ext, osm, base), 1)
 
+(* ---- frontmatter.rs: the YAML front matter is cut off before lexing ----------------------------------------- *)
+\* lines as split_inclusive('\n') gives them: [from, to] symbol indices, the LF included
+RECURSIVE LinesFrom(_, _)
+LinesFrom(inp, i) == IF i > Len(inp) THEN <<>>
+                     ELSE LET nl == {p \in i..Len(inp) : inp[p] = "LF"}
+                              e  == IF nl = {} THEN Len(inp) ELSE MinOf(nl)
+                          IN <<[a |-> i, b |-> e]>> \o LinesFrom(inp, e + 1)
+\* line.trim_end() == "---"
+IsFence(inp, ln) == LET body == SubSeq(inp, ln.a, ln.b)
+                        ps == {p \in DOMAIN body : body[p] \notin WhiteSyms}
+                    IN ps # {} /\ SubSeq(body, 1, MaxOf(ps)) = <<"-", "-", "-">>
+\* parse_frontmatter: only when the first line is a fence and another fence follows
+FrontSplit(inp) ==
+  LET ls == LinesFrom(inp, 1)
+      fs == {q \in DOMAIN ls : IsFence(inp, ls[q])}
+  IN IF ls = <<>> \/ 1 \notin fs \/ fs \ {1} = {} THEN [has |-> FALSE]
+     ELSE LET second == MinOf(fs \ {1})
+          IN [has |-> TRUE, yamlFrom |-> ls[1].b + 1, yamlTo |-> ls[second].a - 1, cook |-> ls[second].b + 1]
+\* every event of PullParser::new(input, ext), the front matter event included
+ParseWhole(inp, ext) ==
+  LET f == FrontSplit(inp) IN
+  IF ~f.has THEN ParseDoc(inp, ext, TRUE, 0)
+  ELSE LET off == OffTab(inp, 1, 0)
+           fm == [k |-> "FrontMatter", txt |-> SubSeq(inp, f.yamlFrom, f.yamlTo),
+                  s |-> off[f.yamlFrom], e |-> IF f.yamlTo >= f.yamlFrom THEN off[f.yamlTo + 1] ELSE off[f.yamlFrom]]
+       IN <<fm>> \o ParseDoc(SubSeq(inp, f.cook, Len(inp)), ext, FALSE, off[f.cook])
+
+(* ---- ast.rs: build_ast folds the events into blocks --------------------------------------------------------------- *)
+\* state: [blocks, items]; diagnostics go to the report, the front matter has no block
+AstStep(st, ev) ==
+  CASE ev.k \in {"Error", "Warning", "FrontMatter"} -> st
+    [] ev.k \in {"Metadata", "Section"} -> [st EXCEPT !.blocks = Append(@, ev)]
+    [] ev.k = "Start" -> [st EXCEPT !.items = <<>>]
+    [] ev.k = "End" -> IF ev.b = "Step"
+                       THEN [blocks |-> IF st.items = <<>> THEN st.blocks ELSE Append(st.blocks, [k |-> "Step", items |-> st.items]), items |-> <<>>]
+                       ELSE [blocks |-> Append(st.blocks, [k |-> "TextBlock", items |-> st.items]), items |-> <<>>]
+    [] OTHER -> [st EXCEPT !.items = Append(@, ev)]
+RECURSIVE AstFold(_, _, _)
+AstFold(st, evs, q) == IF q > Len(evs) THEN st ELSE AstFold(AstStep(st, evs[q]), evs, q + 1)
+AstOf(evs) == AstFold([blocks |-> <<>>, items |-> <<>>], evs, 1).blocks
+\* the obligation build_ast puts on the parser (it panics otherwise): inside a text block there are only texts
+TextBlocksHoldTexts(evs) == \A b \in {AstOf(evs)[q] : q \in DOMAIN AstOf(evs)} : b.k = "TextBlock" => \A q \in DOMAIN b.items : b.items[q].k = "Text"
+
 (* ---- what the events owe their consumer (checked on the model, and on recorded events) --------------------- *)
 IsDiag(ev) == ev.k \in {"Error", "Warning"}
 Spanned(ev) == ev.k \in {"Text", "Ingredient", "Cookware", "Timer"}
